@@ -149,13 +149,6 @@ Definition idle (w : option (nat * res B)) : bool := match w with None => true |
 Definition complete (s : pstate) : bool :=
   negb (alive (col s)) || (feederDone s && forallb idle (workers s)).
 
-(* a canonical completion of any state: deliver what the workers hold, then push the remaining
-   items one by one through worker 0, then let the feeder find the source exhausted *)
-Fixpoint feed_all (n : nat) : list choice :=
-  match n with O => [Feed 0] | S n' => Feed 0 :: Deliver 0 :: feed_all n' end.
-Definition finishing (s : pstate) : list choice :=
-  map Deliver (seq 0 (length (workers s))) ++ feed_all (length (src s)).
-
 Definition par_init (i : nat) (nw : nat) (items : list (res A)) (c : C) : pstate :=
   mkP items i (repeat None nw) false (coll_init i c) [].
 
@@ -163,19 +156,68 @@ Definition par_init (i : nat) (nw : nat) (items : list (res A)) (c : C) : pstate
    k      = itemsToMeasure+1 (12): the items handled on the calling goroutine before the decision
    decide = the outcome of the wall-clock measurement (an input: the property quantifies over it)
    nw     = runtime.NumCPU()                                                                      *)
+(* MapAuto without the canonical completion: the state reached by a schedule.  k and `decide` are inputs like the
+   schedule (any k >= 0; switch, or never switch). *)
+Inductive ma_state : Type :=
+| MASeq (c : C) (go : bool)      (* everything was handled on the calling goroutine *)
+| MAPar (s : pstate).            (* initParallel was started after k items *)
+
+Definition map_auto_run (k : nat) (decide : bool) (nw : nat) (sched : list choice)
+           (items : list (res A)) (c : C) : ma_state :=
+  let (c1, go) := seq_map 0 (firstn k items) c in
+  if negb go then MASeq c1 false else
+  match skipn k items with
+  | [] => MASeq c1 true
+  | rest =>
+      if decide then MAPar (run (par_init k nw rest c1) sched)
+      else let (c2, go2) := seq_map k rest c1 in MASeq c2 go2
+  end.
+
+Definition ma_complete (m : ma_state) : bool := match m with MASeq _ _ => true | MAPar s => complete s end.
+Definition ma_cst (m : ma_state) : C := match m with MASeq c _ => c | MAPar s => cst (col s) end.
+
+(* which choices can fire (the others leave the state unchanged) *)
+Definition enabled (s : pstate) (c : choice) : bool :=
+  match c with
+  | Feed w =>
+      negb (feederDone s) &&
+      match src s with
+      | [] => true
+      | _ :: _ => match nth_error (workers s) w with Some None => true | _ => false end
+      end
+  | Deliver w =>
+      match nth_error (workers s) w with Some (Some _) => alive (col s) | _ => false end
+  | SeeDone =>
+      negb (feederDone s) && match src s with [] => false | _ :: _ => negb (doneOpen (col s)) end
+  end.
+
+(* a bound on the number of steps that can still fire *)
+Definition busy (ws : list (option (nat * res B))) : nat := length (filter (fun w => negb (idle w)) ws).
+Definition measure (s : pstate) : nat :=
+  2 * length (src s) + busy (workers s) + (if feederDone s then 0 else 1).
+
+(* a canonical completion of any state (used to make MapAuto a function): while the state is not final, deliver the
+   result of the first busy worker, else let the feeder hand the next item to worker 0 *)
+Fixpoint first_busy (ws : list (option (nat * res B))) (i : nat) : option nat :=
+  match ws with
+  | [] => None
+  | Some _ :: _ => Some i
+  | None :: r => first_busy r (S i)
+  end.
+Definition pick (s : pstate) : choice :=
+  match first_busy (workers s) 0 with Some w => Deliver w | None => Feed 0 end.
+Fixpoint drive (n : nat) (s : pstate) : pstate :=
+  match n with
+  | O => s
+  | S n' => if complete s then s else drive n' (step s (pick s))
+  end.
+
+(* MapAuto as a function: the given schedule, then the canonical completion *)
 Definition map_auto (k : nat) (decide : bool) (nw : nat) (sched : list choice)
            (items : list (res A)) (c : C) : C * bool :=
-  let (c1, go) := seq_map 0 (firstn k items) c in
-  if negb go then (c1, false) else
-  match skipn k items with
-  | [] => (c1, true)
-  | rest =>
-      if decide
-      then let s0 := par_init k nw rest c1 in
-           let s1 := run s0 sched in
-           let s2 := run s1 (finishing s1) in
-           (cst (col s2), alive (col s2))
-      else seq_map k rest c1
+  match map_auto_run k decide nw sched items c with
+  | MASeq c' go => (c', go)
+  | MAPar s => let s2 := drive (measure s) s in (cst (col s2), alive (col s2))
   end.
 
 End ParMap.
@@ -190,6 +232,55 @@ Fixpoint outcome {B} (l : list (res B)) : option (list B) :=
   | RErr :: _ => None
   | ROk x :: r => match outcome r with Some v => Some (x :: v) | None => None end
   end.
+
+(* the values delivered before the first delivered error *)
+Fixpoint ok_prefix {B} (l : list (res B)) : list B :=
+  match l with ROk x :: r => x :: ok_prefix r | _ => [] end.
+Definition is_prefix {X} (a b : list X) : Prop := exists t, b = a ++ t.
+Definition noerr {B} (l : list (res B)) : bool := forallb (fun x => negb (is_err x)) l.
+
+(* What a parallel stage must deliver, compared with the sequential log Lseq of the same stage:
+   the same outcome (all values in order, or "fails"); if nothing fails the identical log; if something fails,
+   the values handed over before the first error are a prefix of the sequential ones (the sticky error of the
+   collector may surface EARLIER than in source order, never later; nothing wrong is ever delivered). *)
+Definition delivered_as_seq {B} (Lseq Lpar : list (res B)) : Prop :=
+  outcome Lpar = outcome Lseq /\
+  is_prefix (ok_prefix Lpar) (ok_prefix Lseq) /\
+  (noerr Lseq = true -> Lpar = Lseq).
+
+(* ---- FilterAuto: MapAuto over (value, accept) containers, the consumer drops the rejected ones ------------- *)
+Section FilterAuto.
+Context {V : Type}.
+Variable accept : V -> res bool.
+
+Definition filter_mapper (_ : nat) (v : V) : res (V * bool) :=
+  match accept v with ROk b => ROk (v, b) | RErr => RErr end.
+
+(* `if fc.accept || err != nil { yield(fc.val, err) }` in front of a recording consumer *)
+Definition filter_step (c : list (res V)) (r : res (V * bool)) : list (res V) :=
+  match r with
+  | ROk (x, true) => c ++ [ROk x]
+  | ROk (_, false) => c
+  | RErr => c ++ [RErr]
+  end.
+Definition filter_yield (c : list (res V)) (r : res (V * bool)) : list (res V) * bool := (filter_step c r, true).
+
+(* iterator.Filter, the sequential meaning: what a recording consumer is given *)
+Fixpoint seq_filter (items : list (res V)) : list (res V) :=
+  match items with
+  | [] => []
+  | RErr :: r => RErr :: seq_filter r
+  | ROk v :: r =>
+      match accept v with
+      | ROk true => ROk v :: seq_filter r
+      | ROk false => seq_filter r
+      | RErr => RErr :: seq_filter r
+      end
+  end.
+
+Definition filter_auto_run (k : nat) (decide : bool) (nw : nat) (sched : list choice) (items : list (res V)) : ma_state :=
+  map_auto_run filter_mapper filter_yield k decide nw sched items [].
+End FilterAuto.
 
 (* schedules from a seed (linear congruential generator), used by the correspondence run *)
 Fixpoint gen_sched (n : nat) (nw : N) (seed : N) : list choice :=
